@@ -144,6 +144,46 @@ theorem wf_nonNull {t : Ty} (h : (Ty.nonNull t).wf = true) : t.isNonNull = false
 theorem wf_list {t : Ty} (h : (Ty.list t).wf = true) : t.wf = true := by
   simpa [Ty.wf] using h
 
+theorem conformsFields_keys_sublist {reg : Reg} : ∀ {fs : List InField} {kvs : List (String × PV)},
+    ConformsFields reg fs kvs → (kvs.map (fun p => p.1)).Sublist (fs.map (fun f => f.pyName))
+  | _, _, .nil => List.Sublist.slnil
+  | _, _, .present _ h => by
+    simp only [List.map_cons]
+    exact (conformsFields_keys_sublist h).cons_cons _
+  | _, _, .absent _ _ h => by
+    simp only [List.map_cons]
+    exact (conformsFields_keys_sublist h).cons _
+
+private theorem dictSet_fresh (acc : List (String × PV)) (k : String) (v : PV)
+    (h : acc.any (fun q => q.1 == k) = false) : dictSet acc k v = acc ++ [(k, v)] := by
+  simp [dictSet, h]
+
+private theorem foldl_dictSet_fresh : ∀ (r acc : List (String × PV)), ((acc ++ r).map (fun p => p.1)).Nodup →
+    r.foldl (fun d p => dictSet d p.1 p.2) acc = acc ++ r := by
+  intro r
+  induction r with
+  | nil => intro acc _; simp
+  | cons p r ih =>
+    intro acc h
+    have hfresh : acc.any (fun q => q.1 == p.1) = false := by
+      rw [List.any_eq_false]
+      intro q hq hqe
+      simp only [List.map_append, List.map_cons] at h
+      have := (List.nodup_append.1 h).2.2 q.1 (List.mem_map_of_mem hq) p.1 List.mem_cons_self
+      exact this (by simpa using hqe)
+    rw [List.foldl_cons, dictSet_fresh acc p.1 p.2 hfresh]
+    have := ih (acc ++ [(p.1, p.2)]) (by simpa [List.append_assoc] using h)
+    simpa [List.append_assoc] using this
+
+/-- with pairwise distinct keys the sequence of assignments IS the dict (nothing collides) -/
+theorem dictOfAssignments_eq {kvs : List (String × PV)} (h : (kvs.map (fun p => p.1)).Nodup) : dictOfAssignments kvs = kvs := by
+  unfold dictOfAssignments
+  simpa using foldl_dictSet_fresh kvs [] (by simpa using h)
+
+theorem dictOfAssignments_conforms {reg : Reg} {fs : List InField} {kvs : List (String × PV)}
+    (hd : (fs.map (fun f => f.pyName)).Nodup) (h : ConformsFields reg fs kvs) : dictOfAssignments kvs = kvs :=
+  dictOfAssignments_eq ((conformsFields_keys_sublist h).nodup hd)
+
 /-- the field loop produces a dict that conforms to the declared fields -/
 theorem fieldLoop_sound {α : Type} {reg : Reg} {get : String → Option α} {rec : Ty → α → R} :
     ∀ {fs : List InField} {r : List (String × PV)},
